@@ -81,6 +81,7 @@ inductive Label
   | reqBegin (j : Nat)
   | reqEnd (j : Nat) (ok : Bool)
   | registerAbort (j : Nat)       -- CreateMultipartUploadTask adds the failure cleanup
+  | mainFail (j : Nat)            -- `_main` raised although the request succeeded (callback, body close)
   | record (j : Nat)              -- `_log_and_set_exception`
   | setResult (j : Nat)
   | taskEnd (j : Nat)
@@ -126,7 +127,7 @@ def step (cfg : Cfg) (x : X) : Label → Option X
   | .subFail =>
     if x.sub = .run ∧ ¬ x.subFailed then
       some { x with subFailed := true, status := if x.done then x.status else .failed }
-    else if x.sub = .run ∧ x.subFailed ∧ ¬ x.done then some { x with status := .failed }
+    else if x.sub = .run ∧ x.subFailed then some { x with status := if x.done then x.status else .failed }
     else none
   | .subEnd =>
     if x.sub = .run ∧ (x.subFailed → x.announced 1 ∧ x.pc 1 = .finished) then some { x with sub := .ended } else none
@@ -145,6 +146,10 @@ def step (cfg : Cfg) (x : X) : Label → Option X
   | .registerAbort j =>
     if x.ph j = .run ∧ x.res j = .ok ∧ ¬ x.final j ∧ ¬ x.abortRegistered then
       some { x with abortRegistered := true, cleanupsPending := true }
+    else none
+  | .mainFail j =>
+    if x.ph j = .run ∧ x.res j = .ok ∧ ¬ x.recorded j ∧ ¬ x.announced (j + 2) ∧ (x.final j → x.status ≠ .success) then
+      some { x with res := upd x.res j .failed }
     else none
   | .record j =>
     if x.ph j = .run ∧ x.res j = .failed ∧ ¬ x.recorded j then
